@@ -81,6 +81,8 @@ exec_spec(const char *kind, const hx_spec *spp)
                         tr_int("aadlen", sp.aadlen);
                         tr_int("ivlen", sp.ivlen);
                         tr_int("bitadj", sp.bitadj);
+                        tr_int("cctr", sp.ctrcls);
+                        tr_int("pli", sp.pli);
                         tr_int("inplace", sp.inplace);
                         tr_int("place", sp.placement);
                         tr_int("seedlo", (long long) (sp.seed & 0xffffff));
@@ -258,6 +260,8 @@ replay_file(const char *path)
                 sp.aadlen = (uint32_t) jint(line, "aadlen");
                 sp.ivlen = (uint32_t) jint(line, "ivlen");
                 sp.bitadj = (uint32_t) jint(line, "bitadj");
+                sp.ctrcls = (uint32_t) jint(line, "cctr");
+                sp.pli = (uint32_t) jint(line, "pli");
                 sp.inplace = (int) jint(line, "inplace");
                 sp.placement = (int) jint(line, "place");
                 sp.seed = (uint64_t) jint(line, "seedlo") | ((uint64_t) jint(line, "seedmid") << 24) |
